@@ -333,7 +333,7 @@ def engine_agreement(ctx, rep):
         a_sites = collections.Counter()
         for f in ctx.astq['functions']:
             for s in f.get('sites', []):
-                if s.get('macro') in ('write', 'writeln'):
+                if s.get('macro') in ('write', 'writeln', 'write_all', 'write_str'):
                     a_sites[(f['file'], s['fmt']['line'])] += 1
         m_sites = collections.Counter()
         for b in bodies:
@@ -341,7 +341,10 @@ def engine_agreement(ctx, rep):
                 continue
             for cl in b['calls']:
                 ck = cl.get('ckey') or ''
-                if not ck.endswith('write_fmt'):
+                raw = (ck.endswith('Write::write_all') or ck.endswith('Write::write_str')) and not (cl.get('macros') or [])
+                if raw and '.as_bytes()' not in str(cl.get('snippet', '')).replace(' ', '') and 'write_str' not in ck:
+                    raw = False      # `w.write_all(&bytes)` of a byte buffer (not text of the generated file's grammar): not an emission of text
+                if not ck.endswith('write_fmt') and not raw:
                     continue
                 macs = cl.get('macros') or []
                 if 'lazy_format' in macs or 'Error' in macs:
